@@ -201,9 +201,11 @@ def check_C05(ctx):
     try:
         import checks_fol
         checks_fol.c05_fol_part(ctx)
+        import checks_quant
+        checks_quant.c05_quant_part(ctx)
     except (ImportError, AttributeError):
         ctx.assumptions.append("first-order / quantifier part not yet covered by this check")
-    return ctx.finish("proof", pr, st, rule=RULE_K3 + "; C05 monitor: before/after snapshot of every object around every call")
+    return ctx.finish("proof", pr, st, rule=RULE_K3 + "; C05 monitor: before/after snapshot of every object around every call; quantifier part: K7 scenarios (instance sets growing through add_data between calls, nested quantifiers), every row of every base and quantifier table only tightens across every inference call")
 
 
 def check_C13(ctx):
